@@ -32,6 +32,7 @@ import (
 	"github.com/lestrrat-go/jwx/v2/jws"
 	ssi "github.com/nuts-foundation/go-did"
 	nutsCrypto "github.com/nuts-foundation/nuts-node/crypto"
+	"github.com/nuts-foundation/nuts-node/crypto/jwx"
 	"github.com/nuts-foundation/nuts-node/vcr/signature"
 )
 
@@ -129,6 +130,10 @@ func (p LDProof) Verify(document Document, suite signature.Suite, key crypto.Pub
 	alg, err := nutsCrypto.SignatureAlgorithm(key)
 	if err != nil {
 		return err
+	}
+	// e.g. an Ed25519 key of the wrong length (the key was resolved for a remote party): verifying with it panics
+	if !jwx.AlgorithmFitsKey(alg, key) {
+		return errors.New("invalid proof signature: public key is not usable with " + alg.String())
 	}
 
 	jswVerifier, _ := jws.NewVerifier(alg)
